@@ -237,50 +237,19 @@ Proof. intros A l. apply Permutation_refl. Qed.
 
 Definition names (l : list tspec) : list string := map ts_name l.
 
-Lemma walk_pkg_decls : forall p, walk_pkg p = flat_map walk_decl (all_decls p).
-Proof. intros p. unfold walk_pkg, walk_file, all_decls. symmetry. apply flat_map_flat_map. Qed.
-
 Lemma pkg_specs_decls : forall p, pkg_specs p = flat_map top_decl (all_decls p).
 Proof. intros p. unfold pkg_specs, top_specs, all_decls. symmetry. apply flat_map_flat_map. Qed.
 
-Lemma local_specs_decls : forall p, local_specs p = flat_map local_decl (all_decls p).
-Proof. intros p. unfold local_specs, all_decls. symmetry. apply flat_map_flat_map. Qed.
-
-Lemma walk_decl_split : forall d, walk_decl d = (top_decl d ++ local_decl d)%list.
-Proof. destruct d; simpl; try reflexivity. symmetry. apply app_nil_r. Qed.
-
-Lemma walk_perm : forall p, Permutation (walk_pkg p) (pkg_specs p ++ local_specs p).
-Proof.
-  intros p. rewrite walk_pkg_decls, pkg_specs_decls, local_specs_decls.
-  rewrite (flat_map_ext _ _ walk_decl_split). apply flat_map_split_perm.
-Qed.
-
-Lemma in_walk_pkg : forall p t, In t (walk_pkg p) <-> In t (pkg_specs p) \/ In t (local_specs p).
-Proof.
-  intros p t. rewrite <- in_app_iff. split; intros H.
-  - eapply Permutation_in; [apply walk_perm | exact H].
-  - eapply Permutation_in; [apply Permutation_sym; apply walk_perm | exact H].
-Qed.
-
-Lemma top_in_walk_file : forall f t, In t (top_specs f) -> In t (walk_file f).
-Proof.
-  intros f t H. unfold top_specs in H. unfold walk_file. apply in_flat_map in H. destruct H as [d [Hd Ht]].
-  apply in_flat_map. exists d. split; [exact Hd|]. rewrite walk_decl_split. apply in_or_app. left. exact Ht.
-Qed.
-
 Lemma top_specs_in_pkg : forall p f t, In f (p_files p) -> In t (top_specs f) -> In t (pkg_specs p).
 Proof. intros p f t Hf Ht. unfold pkg_specs. apply in_flat_map. exists f. split; assumption. Qed.
-
-Lemma walk_file_in_pkg : forall p f t, In f (p_files p) -> In t (walk_file f) -> In t (walk_pkg p).
-Proof. intros p f t Hf Ht. unfold walk_pkg. apply in_flat_map. exists f. split; assumption. Qed.
 
 Lemma in_pkg_specs_file : forall p t, In t (pkg_specs p) -> exists f, In f (p_files p) /\ In t (top_specs f).
 Proof. intros p t H. unfold pkg_specs in H. apply in_flat_map in H. exact H. Qed.
 
 (* the conjuncts of wf_pkgb *)
 Record wf (p : pkg) : Prop := {
-  wf_names : NoDup (names (walk_pkg p));
-  wf_idents : forall t, In t (walk_pkg p) -> is_ident (ts_name t) = true;
+  wf_names : NoDup (names (pkg_specs p));
+  wf_idents : forall t, In t (pkg_specs p) -> is_ident (ts_name t) = true;
   wf_files : NoDup (map f_name (p_files p));
   wf_visible : forall f, In f (p_files p) -> visible_file (f_name f) = true
 }.
@@ -296,35 +265,11 @@ Proof.
 Qed.
 
 Lemma named_unique : forall p t1 t2, wf p ->
-  In t1 (walk_pkg p) -> In t2 (walk_pkg p) -> ts_name t1 = ts_name t2 -> t1 = t2.
+  In t1 (pkg_specs p) -> In t2 (pkg_specs p) -> ts_name t1 = ts_name t2 -> t1 = t2.
 Proof. intros p t1 t2 W H1 H2 He. exact (NoDup_map_inj _ _ ts_name _ t1 t2 (wf_names p W) H1 H2 He). Qed.
 
-Lemma is_local_In : forall p T, is_local p T = true <-> exists t, In t (local_specs p) /\ ts_name t = T.
-Proof.
-  intros p T. unfold is_local. rewrite mem_In, in_map_iff. split; intros [t [A B]]; exists t; tauto.
-Qed.
-
-Lemma top_not_local : forall p t, wf p -> In t (pkg_specs p) -> is_local p (ts_name t) = false.
-Proof.
-  intros p t W Ht. destruct (is_local p (ts_name t)) eqn:E; [|reflexivity]. exfalso.
-  apply is_local_In in E. destruct E as [t' [Ht' He]].
-  pose proof (wf_names p W) as Hn. unfold names in Hn.
-  assert (Hn' : NoDup (map ts_name (pkg_specs p ++ local_specs p))).
-  { eapply Permutation_NoDup; [apply Permutation_map; apply walk_perm | exact Hn]. }
-  rewrite map_app in Hn'. apply (NoDup_app_disjoint _ _ _ (ts_name t) Hn').
-  - apply in_map. exact Ht.
-  - rewrite <- He. apply in_map. exact Ht'.
-Qed.
-
-(* a non-local name that occurs at all occurs at package level *)
-Lemma nonlocal_named_top : forall p t, is_local p (ts_name t) = false -> In t (walk_pkg p) -> In t (pkg_specs p).
-Proof.
-  intros p t Hl Ht. apply in_walk_pkg in Ht. destruct Ht as [Ht|Ht]; [exact Ht|].
-  exfalso. assert (is_local p (ts_name t) = true) by (apply is_local_In; exists t; tauto). congruence.
-Qed.
-
-Lemma names_walk_pkg : forall p, names (walk_pkg p) = flat_map (fun f => names (walk_file f)) (p_files p).
-Proof. intros p. unfold names, walk_pkg. apply map_flat_map. Qed.
+Lemma names_pkg_specs : forall p, names (pkg_specs p) = flat_map (fun f => names (top_specs f)) (p_files p).
+Proof. intros p. unfold names, pkg_specs. apply map_flat_map. Qed.
 
 (* the file a package-level type is declared in *)
 Lemma decl_file_spec : forall p f t, wf p -> In f (p_files p) -> In t (top_specs f) -> decl_file p (ts_name t) = f_name f.
@@ -334,20 +279,12 @@ Proof.
   - apply find_some in E. destruct E as [Hf1 Hd]. unfold declares in Hd. apply existsb_exists in Hd.
     destruct Hd as [t1 [Ht1 He]]. apply String.eqb_eq in He.
     assert (f1 = f); [|subst; reflexivity].
-    pose proof (wf_names p W) as Hn. rewrite names_walk_pkg in Hn.
+    pose proof (wf_names p W) as Hn. rewrite names_pkg_specs in Hn.
     apply (NoDup_flat_map_piece _ _ _ _ f1 f (ts_name t) Hn Hf1 Hf).
-    + rewrite <- He. apply in_map. apply top_in_walk_file. exact Ht1.
-    + apply in_map. apply top_in_walk_file. exact Ht.
+    + rewrite <- He. apply in_map. exact Ht1.
+    + apply in_map. exact Ht.
   - exfalso. pose proof (find_none _ _ E f Hf) as C. unfold declares in C.
     rewrite existsb_false_forall in C. specialize (C t Ht). rewrite String.eqb_refl in C. discriminate.
-Qed.
-
-Lemma decl_file_none : forall p T, (forall t, In t (pkg_specs p) -> ts_name t <> T) -> decl_file p T = "".
-Proof.
-  intros p T H. unfold decl_file. destruct (find (declares T) (p_files p)) as [f|] eqn:E; [|reflexivity].
-  exfalso. apply find_some in E. destruct E as [Hf Hd]. unfold declares in Hd. apply existsb_exists in Hd.
-  destruct Hd as [t [Ht He]]. apply String.eqb_eq in He. apply (H t); [|exact He].
-  eapply top_specs_in_pkg; eassumption.
 Qed.
 
 (* ---------------------------------------------------------------- getGoFile *)
@@ -470,6 +407,7 @@ Proof.
 Qed.
 
 Definition alias_pred (T : string) (t : tspec) : bool := ts_alias t && (ts_name t =? T).
+Definition has_alias (p : pkg) (T : string) : bool := existsb (alias_pred T) (pkg_specs p).
 
 Lemma enum_walk_specs_existsb : forall T l, enum_walk_specs T l = existsb (alias_pred T) l.
 Proof. intros T l. induction l as [|t l IH]; simpl; [reflexivity|]. rewrite IH. reflexivity. Qed.
@@ -485,12 +423,15 @@ Proof.
   rewrite consts_in_app, IH. reflexivity.
 Qed.
 
-Lemma enum_walk_ok : forall p T ds n,
-  existsb (alias_pred T) (flat_map walk_decl ds) = false ->
+Definition enum_end (sp : bool) (n : nat) : md_res :=
+  if Nat.eqb n 0 then (if sp then MFatal DgEnumNone else MSkip) else MGen.
+
+Lemma enum_walk_ok : forall p sp T ds n,
+  existsb (alias_pred T) (flat_map top_decl ds) = false ->
   (type_is_int p T = true \/ consts_in T ds = 0) ->
-  enum_walk p T ds n = if Nat.eqb (n + consts_in T ds) 0 then MSkip else MGen.
+  enum_walk p sp T ds n = enum_end sp (n + consts_in T ds).
 Proof.
-  intros p T ds. induction ds as [|d ds IH]; intros n Ha Hc.
+  intros p sp T ds. induction ds as [|d ds IH]; intros n Ha Hc.
   - simpl. rewrite Nat.add_0_r. reflexivity.
   - simpl in Ha. rewrite existsb_app in Ha. apply orb_false_iff in Ha. destruct Ha as [Ha1 Ha2].
     destruct d as [l|ty ns|l|txt]; simpl.
@@ -504,14 +445,14 @@ Proof.
            replace (n + Datatypes.length (x :: ns) + consts_in T ds)
              with (n + (Datatypes.length (x :: ns) + consts_in T ds)) by lia. reflexivity.
       * apply IH; [exact Ha2|]. exact Hc.
-    + simpl in Ha1. rewrite enum_walk_specs_existsb, Ha1. apply IH; [exact Ha2|]. simpl in Hc. exact Hc.
+    + apply IH; [exact Ha2|]. simpl in Hc. exact Hc.
     + apply IH; [exact Ha2|]. simpl in Hc. exact Hc.
 Qed.
 
-Lemma enum_walk_alias_fatal : forall p T ds n,
-  existsb (alias_pred T) (flat_map walk_decl ds) = true -> exists d, enum_walk p T ds n = MFatal d.
+Lemma enum_walk_alias_fatal : forall p sp T ds n,
+  existsb (alias_pred T) (flat_map top_decl ds) = true -> exists d, enum_walk p sp T ds n = MFatal d.
 Proof.
-  intros p T ds. induction ds as [|d ds IH]; intros n Ha; [discriminate|].
+  intros p sp T ds. induction ds as [|d ds IH]; intros n Ha; [discriminate|].
   simpl in Ha. rewrite existsb_app in Ha.
   destruct d as [l|ty ns|l|txt]; simpl in *.
   - rewrite enum_walk_specs_existsb. destruct (existsb (alias_pred T) l); [eexists; reflexivity|].
@@ -519,20 +460,19 @@ Proof.
   - destruct (ty =? T); simpl; [|apply IH; exact Ha].
     destruct ns as [|x ns]; [apply IH; exact Ha|].
     destruct (type_is_int p T); [apply IH; exact Ha | eexists; reflexivity].
-  - rewrite enum_walk_specs_existsb. destruct (existsb (alias_pred T) l); [eexists; reflexivity|].
-    apply IH. exact Ha.
+  - apply IH. exact Ha.
   - apply IH. exact Ha.
 Qed.
 
-Lemma enum_walk_nonint_fatal : forall p T ds n,
-  type_is_int p T = false -> consts_in T ds <> 0 -> exists d, enum_walk p T ds n = MFatal d.
+Lemma enum_walk_nonint_fatal : forall p sp T ds n,
+  type_is_int p T = false -> consts_in T ds <> 0 -> exists d, enum_walk p sp T ds n = MFatal d.
 Proof.
-  intros p T ds. induction ds as [|d ds IH]; intros n Hi Hc; [simpl in Hc; contradiction|].
+  intros p sp T ds. induction ds as [|d ds IH]; intros n Hi Hc; [simpl in Hc; contradiction|].
   destruct d as [l|ty ns|l|txt]; simpl in *.
   - destruct (enum_walk_specs T l); [eexists; reflexivity | apply IH; assumption].
   - destruct (ty =? T); simpl; [|apply IH; assumption].
     destruct ns as [|x ns]; [apply IH; assumption|]. rewrite Hi. eexists; reflexivity.
-  - destruct (enum_walk_specs T l); [eexists; reflexivity | apply IH; assumption].
+  - apply IH; assumption.
   - apply IH; assumption.
 Qed.
 
@@ -541,7 +481,7 @@ Proof.
   intros p t W Ht. unfold type_is_int.
   destruct (find (fun t0 => ts_name t0 =? ts_name t) (pkg_specs p)) as [t'|] eqn:E.
   - apply find_some in E. destruct E as [Ht' He]. apply String.eqb_eq in He.
-    rewrite (named_unique p t' t W); try assumption; try reflexivity; apply in_walk_pkg; left; assumption.
+    rewrite (named_unique p t' t W); try assumption; reflexivity.
   - pose proof (find_none _ _ E t Ht) as C. simpl in C. rewrite String.eqb_refl in C. discriminate.
 Qed.
 
@@ -559,43 +499,40 @@ Proof.
   - intros [t [Ht [H1 H2]]]. exists t. split; [exact Ht|]. rewrite H2. subst T. rewrite String.eqb_refl. reflexivity.
 Qed.
 
-Lemma no_alias_named : forall p t, wf p -> In t (walk_pkg p) -> ts_alias t = false ->
-  existsb (alias_pred (ts_name t)) (walk_pkg p) = false.
+Lemma no_alias_named : forall p t, wf p -> In t (pkg_specs p) -> ts_alias t = false -> has_alias p (ts_name t) = false.
 Proof.
   intros p t W Ht Ha. apply existsb_false_forall. intros t' Ht'. unfold alias_pred.
   destruct (ts_name t' =? ts_name t) eqn:E; [|apply andb_false_r].
   apply String.eqb_eq in E. rewrite (named_unique p t' t W Ht' Ht E), Ha. reflexivity.
 Qed.
 
-Lemma alias_named_walk : forall p T, alias_named p T = existsb (alias_pred T) (flat_map walk_decl (all_decls p)).
-Proof. intros p T. unfold alias_named. rewrite walk_pkg_decls. reflexivity. Qed.
+Lemma has_alias_decls : forall p T, has_alias p T = existsb (alias_pred T) (flat_map top_decl (all_decls p)).
+Proof. intros p T. unfold has_alias. rewrite pkg_specs_decls. reflexivity. Qed.
 
 Lemma make_data_nameable : forall c p b T, wf p -> nameable c p T = true -> make_data c p b T = MGen.
 Proof.
   intros c p b T W Hn. apply nameable_iff in Hn. destruct Hn as [t [Ht [He Hel]]].
-  assert (Hw : In t (walk_pkg p)) by (apply in_walk_pkg; left; exact Ht).
   destruct c; simpl in *.
-  - apply andb_true_iff in Hel. destruct Hel as [Hs Hp]. rewrite (new_walk_unique T (walk_pkg p) t (wf_names p W) Hw He).
+  - apply andb_true_iff in Hel. destruct Hel as [Hs Hp]. rewrite (new_walk_unique T (pkg_specs p) t (wf_names p W) Ht He).
     rewrite Hs. simpl. rewrite He in Hp. apply negb_true_iff in Hp. rewrite Hp. reflexivity.
   - rewrite !andb_true_iff in Hel. destruct Hel as [[Hi Ha] Hc]. apply negb_true_iff in Ha. apply negb_true_iff in Hc.
     subst T. rewrite enum_walk_ok.
-    + rewrite <- consts_of_all. simpl. rewrite Hc. reflexivity.
-    + rewrite <- walk_pkg_decls. apply no_alias_named; assumption.
+    + rewrite <- consts_of_all. unfold enum_end. simpl. rewrite Hc. reflexivity.
+    + rewrite <- has_alias_decls. apply no_alias_named; assumption.
     + left. rewrite type_is_int_unique; assumption.
-  - assert (Hx : existsb (fun t0 => (ts_name t0 =? T) && is_rest_iface t0) (walk_pkg p) = true).
-    { apply existsb_exists. exists t. split; [exact Hw|]. rewrite He, String.eqb_refl, Hel. reflexivity. }
+  - assert (Hx : existsb (fun t0 => (ts_name t0 =? T) && is_rest_iface t0) (pkg_specs p) = true).
+    { apply existsb_exists. exists t. split; [exact Ht|]. rewrite He, String.eqb_refl, Hel. reflexivity. }
     rewrite Hx. reflexivity.
   - apply andb_true_iff in Hel. destruct Hel as [Hs Hd].
-    assert (Hx : existsb (fun t0 => (ts_name t0 =? T) && is_struct t0) (walk_pkg p) = true).
-    { apply existsb_exists. exists t. split; [exact Hw|]. rewrite He, String.eqb_refl, Hs. reflexivity. }
+    assert (Hx : existsb (fun t0 => (ts_name t0 =? T) && is_struct t0) (pkg_specs p) = true).
+    { apply existsb_exists. exists t. split; [exact Ht|]. rewrite He, String.eqb_refl, Hs. reflexivity. }
     rewrite Hx. simpl. unfold dest_has_struct in Hd. rewrite He in Hd. rewrite Hd. reflexivity.
 Qed.
 
-(* a name that occurs nowhere, or only with the wrong kind *)
 Lemma named_or_absent : forall p T,
-  (exists t, In t (walk_pkg p) /\ ts_name t = T) \/ (forall t, In t (walk_pkg p) -> ts_name t <> T).
+  (exists t, In t (pkg_specs p) /\ ts_name t = T) \/ (forall t, In t (pkg_specs p) -> ts_name t <> T).
 Proof.
-  intros p T. destruct (existsb (fun t => ts_name t =? T) (walk_pkg p)) eqn:E.
+  intros p T. destruct (existsb (fun t => ts_name t =? T) (pkg_specs p)) eqn:E.
   - left. apply existsb_exists in E. destruct E as [t [Ht He]]. apply String.eqb_eq in He. exists t. tauto.
   - right. intros t Ht C. rewrite existsb_false_forall in E. specialize (E t Ht). simpl in E.
     rewrite C, String.eqb_refl in E. discriminate.
@@ -607,39 +544,41 @@ Proof.
   rewrite String.eqb_refl in Hn. exact Hn.
 Qed.
 
-Lemma make_data_not_nameable : forall c p T, wf p -> is_local p T = false -> nameable c p T = false ->
-  (c = CEnum -> alias_named p T = true \/ consts_of p T <> 0) ->
+(* an explicitly named type the subcommand cannot generate for: always a diagnostic *)
+Lemma make_data_not_nameable : forall c p T, wf p -> nameable c p T = false ->
   exists d, make_data c p true T = MFatal d.
 Proof.
-  intros c p T W Hl Hn Hen.
+  intros c p T W Hn.
   destruct c; simpl.
-  - destruct (named_or_absent p T) as [[t [Hw He]]|Habs].
-    + subst T. pose proof (nonlocal_named_top p t Hl Hw) as Ht.
-      pose proof (not_nameable_ineligible _ _ _ Hn Ht) as Hel. simpl in Hel.
-      rewrite (new_walk_unique _ (walk_pkg p) t (wf_names p W) Hw eq_refl).
+  - destruct (named_or_absent p T) as [[t [Ht He]]|Habs].
+    + subst T. pose proof (not_nameable_ineligible _ _ _ Hn Ht) as Hel. simpl in Hel.
+      rewrite (new_walk_unique _ (pkg_specs p) t (wf_names p W) Ht eq_refl).
       destruct (is_struct t); simpl in *; [|eexists; reflexivity].
       apply negb_false_iff in Hel. rewrite Hel. eexists; reflexivity.
     + rewrite new_walk_absent by exact Habs. eexists; reflexivity.
-  - destruct (alias_named p T) eqn:Ea.
-    + apply enum_walk_alias_fatal. rewrite <- alias_named_walk. exact Ea.
-    + destruct (Hen eq_refl) as [C|Hc]; [discriminate|].
-      apply enum_walk_nonint_fatal; [|rewrite <- consts_of_all; exact Hc].
-      destruct (named_or_absent p T) as [[t [Hw He]]|Habs].
-      * subst T. pose proof (nonlocal_named_top p t Hl Hw) as Ht.
-        pose proof (not_nameable_ineligible _ _ _ Hn Ht) as Hel. simpl in Hel.
-        rewrite type_is_int_unique by assumption.
-        unfold alias_named in Ea. rewrite existsb_false_forall in Ea. specialize (Ea t Hw). simpl in Ea.
-        rewrite String.eqb_refl, andb_true_r in Ea. rewrite Ea in Hel. simpl in Hel.
-        apply Nat.eqb_neq in Hc. rewrite Hc in Hel. simpl in Hel. rewrite !andb_true_r in Hel. exact Hel.
-      * apply type_is_int_absent. intros t Ht. apply Habs. apply in_walk_pkg. left. exact Ht.
-  - assert (Hx : existsb (fun t0 => (ts_name t0 =? T) && is_rest_iface t0) (walk_pkg p) = false).
-    { apply existsb_false_forall. intros t Hw. destruct (ts_name t =? T) eqn:E; [|reflexivity]. simpl.
-      apply String.eqb_eq in E. subst T. pose proof (nonlocal_named_top p t Hl Hw) as Ht.
-      exact (not_nameable_ineligible _ _ _ Hn Ht). }
+  - destruct (has_alias p T) eqn:Ea.
+    + apply enum_walk_alias_fatal. rewrite <- has_alias_decls. exact Ea.
+    + destruct (Nat.eqb (consts_of p T) 0) eqn:Ec.
+      * apply Nat.eqb_eq in Ec. rewrite enum_walk_ok.
+        -- rewrite <- consts_of_all, Ec. eexists; reflexivity.
+        -- rewrite <- has_alias_decls. exact Ea.
+        -- right. rewrite <- consts_of_all. exact Ec.
+      * apply Nat.eqb_neq in Ec.
+        apply enum_walk_nonint_fatal; [|rewrite <- consts_of_all; exact Ec].
+        destruct (named_or_absent p T) as [[t [Ht He]]|Habs].
+        -- subst T. pose proof (not_nameable_ineligible _ _ _ Hn Ht) as Hel. simpl in Hel.
+           rewrite type_is_int_unique by assumption.
+           unfold has_alias in Ea. rewrite existsb_false_forall in Ea. specialize (Ea t Ht). unfold alias_pred in Ea.
+           rewrite String.eqb_refl, andb_true_r in Ea. rewrite Ea in Hel. simpl in Hel.
+           apply Nat.eqb_neq in Ec. rewrite Ec in Hel. simpl in Hel. rewrite !andb_true_r in Hel. exact Hel.
+        -- apply type_is_int_absent. exact Habs.
+  - assert (Hx : existsb (fun t0 => (ts_name t0 =? T) && is_rest_iface t0) (pkg_specs p) = false).
+    { apply existsb_false_forall. intros t Ht. destruct (ts_name t =? T) eqn:E; [|reflexivity]. simpl.
+      apply String.eqb_eq in E. subst T. exact (not_nameable_ineligible _ _ _ Hn Ht). }
     rewrite Hx. eexists; reflexivity.
-  - destruct (existsb (fun t0 => (ts_name t0 =? T) && is_struct t0) (walk_pkg p)) eqn:Ex; simpl; [|eexists; reflexivity].
-    apply existsb_exists in Ex. destruct Ex as [t [Hw Hx]]. apply andb_true_iff in Hx. destruct Hx as [He Hs].
-    apply String.eqb_eq in He. subst T. pose proof (nonlocal_named_top p t Hl Hw) as Ht.
+  - destruct (existsb (fun t0 => (ts_name t0 =? T) && is_struct t0) (pkg_specs p)) eqn:Ex; simpl; [|eexists; reflexivity].
+    apply existsb_exists in Ex. destruct Ex as [t [Ht Hx]]. apply andb_true_iff in Hx. destruct Hx as [He Hs].
+    apply String.eqb_eq in He. subst T.
     pose proof (not_nameable_ineligible _ _ _ Hn Ht) as Hel. simpl in Hel. rewrite Hs in Hel. simpl in Hel.
     unfold dest_has_struct in Hel. rewrite Hel. eexists; reflexivity.
 Qed.
@@ -657,61 +596,32 @@ Lemma make_data_listed : forall c p t, wf p -> In t (pkg_specs p) -> test_node_l
   make_data c p false (ts_name t) = if listable c p t then MGen else MSkip.
 Proof.
   intros c p t W Ht Htest.
-  assert (Hw : In t (walk_pkg p)) by (apply in_walk_pkg; left; exact Ht).
   unfold listable. destruct c; simpl in *.
   - apply andb_true_iff in Htest. destruct Htest as [Hp Hs].
-    rewrite (new_walk_unique _ (walk_pkg p) t (wf_names p W) Hw eq_refl).
+    rewrite (new_walk_unique _ (pkg_specs p) t (wf_names p W) Ht eq_refl).
     rewrite Hs, Hp. simpl. apply negb_true_iff in Hp. rewrite Hp. reflexivity.
   - apply andb_true_iff in Htest. destruct Htest as [Hi Ha]. rewrite Hi, Ha. simpl.
     apply negb_true_iff in Ha. rewrite enum_walk_ok.
-    + rewrite <- consts_of_all. simpl. rewrite andb_true_r. destruct (Nat.eqb (consts_of p (ts_name t)) 0); reflexivity.
-    + rewrite <- walk_pkg_decls. apply no_alias_named; assumption.
+    + rewrite <- consts_of_all. unfold enum_end. simpl. rewrite andb_true_r.
+      destruct (Nat.eqb (consts_of p (ts_name t)) 0); reflexivity.
+    + rewrite <- has_alias_decls. apply no_alias_named; assumption.
     + left. rewrite type_is_int_unique; assumption.
-  - assert (Hx : existsb (fun t0 => (ts_name t0 =? ts_name t) && is_rest_iface t0) (walk_pkg p) = true).
-    { apply existsb_exists. exists t. split; [exact Hw|]. rewrite String.eqb_refl, Htest. reflexivity. }
+  - assert (Hx : existsb (fun t0 => (ts_name t0 =? ts_name t) && is_rest_iface t0) (pkg_specs p) = true).
+    { apply existsb_exists. exists t. split; [exact Ht|]. rewrite String.eqb_refl, Htest. reflexivity. }
     rewrite Hx, Htest. reflexivity.
   - apply andb_true_iff in Htest. destruct Htest as [Hs Hx'].
-    assert (Hx : existsb (fun t0 => (ts_name t0 =? ts_name t) && is_struct t0) (walk_pkg p) = true).
-    { apply existsb_exists. exists t. split; [exact Hw|]. rewrite String.eqb_refl, Hs. reflexivity. }
+    assert (Hx : existsb (fun t0 => (ts_name t0 =? ts_name t) && is_struct t0) (pkg_specs p) = true).
+    { apply existsb_exists. exists t. split; [exact Ht|]. rewrite String.eqb_refl, Hs. reflexivity. }
     rewrite Hx, Hs, Hx'. simpl. unfold dest_has_struct. rewrite andb_true_r.
     destruct (existsb (fun t0 => (ts_name t0 =? ts_name t) && is_struct t0) (p_dest p)); reflexivity.
 Qed.
 
 (* --------------------------------------------------------------- ListTypes *)
 
-Lemma filter_walk_top : forall (P : tspec -> bool) ds,
-  (forall t, In t (flat_map local_decl ds) -> P t = false) ->
-  filter P (flat_map walk_decl ds) = filter P (flat_map top_decl ds).
-Proof.
-  intros P ds. induction ds as [|d ds IH]; simpl; intros H; [reflexivity|].
-  rewrite !filter_app, walk_decl_split, filter_app.
-  rewrite (filter_none _ P (local_decl d)) by (intros x Hx; apply H; apply in_or_app; left; exact Hx).
-  rewrite app_nil_r, IH; [reflexivity|]. intros t Ht. apply H. apply in_or_app. right. exact Ht.
-Qed.
-
-Lemma list_types_top : forall c fl fs,
-  (forall f t, In f fs -> In t (flat_map local_decl (f_decls f)) -> test_node_list c t = false) ->
-  flat_map (fun f => if test_file fl f then map ts_name (filter (test_node_list c) (walk_file f)) else []) fs =
-  flat_map (fun f => if test_file fl f then map ts_name (filter (test_node_list c) (top_specs f)) else []) fs.
-Proof.
-  intros c fl fs. induction fs as [|f fs IH]; simpl; intros H; [reflexivity|].
-  rewrite IH by (intros f' t Hf' Ht; apply (H f' t); [right; exact Hf' | exact Ht]).
-  unfold walk_file, top_specs. rewrite filter_walk_top; [reflexivity|].
-  intros t Ht. apply (H f t); [left; reflexivity | exact Ht].
-Qed.
-
-Lemma no_local_listed : forall c p, existsb (test_node_list c) (local_specs p) = false ->
-  forall f t, In f (p_files p) -> In t (flat_map local_decl (f_decls f)) -> test_node_list c t = false.
-Proof.
-  intros c p H f t Hf Ht. rewrite existsb_false_forall in H. apply H. unfold local_specs.
-  apply in_flat_map. exists f. split; assumption.
-Qed.
-
-Lemma list_types_all : forall c fl p, fl_file fl = "" -> existsb (test_node_list c) (local_specs p) = false ->
+Lemma list_types_all : forall c fl p, fl_file fl = "" ->
   list_types c fl p = map ts_name (filter (test_node_list c) (pkg_specs p)).
 Proof.
-  intros c fl p Hf Hl. unfold list_types. rewrite list_types_top by (apply no_local_listed; exact Hl).
-  unfold pkg_specs. rewrite filter_flat_map, map_flat_map. apply flat_map_ext. intros f.
+  intros c fl p Hf. unfold list_types, pkg_specs. rewrite filter_flat_map, map_flat_map. apply flat_map_ext. intros f.
   unfold test_file. rewrite Hf. reflexivity.
 Qed.
 
@@ -729,11 +639,9 @@ Proof.
 Qed.
 
 Lemma list_types_file : forall c fl p, wf p -> fl_file fl <> "" ->
-  existsb (test_node_list c) (local_specs p) = false ->
   list_types c fl p = map ts_name (filter (test_node_list c) (file_named p (fl_file fl))).
 Proof.
-  intros c fl p W Hf Hl. unfold list_types. rewrite list_types_top by (apply no_local_listed; exact Hl).
-  apply String.eqb_neq in Hf.
+  intros c fl p W Hf. unfold list_types. apply String.eqb_neq in Hf.
   rewrite (flat_map_ext _ (fun f => if f_name f =? fl_file fl then map ts_name (filter (test_node_list c) (top_specs f)) else [])).
   - rewrite flat_map_select by (apply (wf_files p W)). unfold file_named.
     destruct (find (fun f => f_name f =? fl_file fl) (p_files p)); reflexivity.
@@ -752,17 +660,55 @@ Qed.
 Definition is_gen (r : md_res) : bool := match r with MGen => true | _ => false end.
 Definition keep (c : subcmd) (p : pkg) (sp : bool) (T : string) : bool := is_gen (make_data c p sp T).
 
-Lemma gen_loop_sep : forall c p fl aio fmap l files merged, fl_sep fl = true ->
+(* one file per type, all names free: every kept type gets its file, in order *)
+Lemma gen_loop_sep : forall c p fl aio fmap (name : string -> string) l files merged, fl_sep fl = true ->
   (forall T d, In T l -> make_data c p (fl_specified fl) T <> MFatal d) ->
+  (forall T, In T l -> file_name c fl aio fmap T = name T) ->
+  NoDup (map fst files ++ map name (filter (keep c p (fl_specified fl)) l)) ->
   gen_loop c p fl aio fmap l files merged =
-  (None, fold_left (fun fs T => upsert (file_name c fl aio fmap T) [T] fs)
-                   (filter (keep c p (fl_specified fl)) l) files, merged).
+  (None, (files ++ map (fun T => (name T, [T])) (filter (keep c p (fl_specified fl)) l))%list, merged).
 Proof.
-  intros c p fl aio fmap l. induction l as [|T l IH]; simpl; intros files merged Hs Hnf; [reflexivity|].
-  unfold keep at 1. destruct (make_data c p (fl_specified fl) T) eqn:E; simpl.
-  - rewrite Hs. apply IH; [exact Hs|]. intros T' d HT'. apply Hnf. right. exact HT'.
-  - apply IH; [exact Hs|]. intros T' d HT'. apply Hnf. right. exact HT'.
-  - exfalso. apply (Hnf T d); [left; reflexivity | exact E].
+  intros c p fl aio fmap name l. induction l as [|T l IH]; simpl; intros files merged Hs Hnf Hnm Hnd.
+  - rewrite app_nil_r. reflexivity.
+  - unfold keep at 1 in Hnd. unfold keep at 1. destruct (make_data c p (fl_specified fl) T) eqn:E; simpl in *.
+    + rewrite Hs. rewrite (Hnm T (or_introl eq_refl)).
+      assert (Hfree : mem (name T) (map fst files) = false).
+      { apply mem_false. intros C. apply (NoDup_app_disjoint _ _ _ (name T) Hnd C). left. reflexivity. }
+      rewrite Hfree. rewrite IH.
+      * rewrite <- app_assoc. reflexivity.
+      * exact Hs.
+      * intros T' d HT'. apply Hnf. right. exact HT'.
+      * intros T' HT'. apply Hnm. right. exact HT'.
+      * rewrite map_app. simpl. rewrite <- app_assoc. exact Hnd.
+    + apply IH; try assumption.
+      * intros T' d HT'. apply Hnf. right. exact HT'.
+      * intros T' HT'. apply Hnm. right. exact HT'.
+    + exfalso. apply (Hnf T d); [left; reflexivity | exact E].
+Qed.
+
+(* one file per type, two kept types (or a kept type and an earlier file) with one name: a diagnostic *)
+Lemma gen_loop_clash : forall c p fl aio fmap (name : string -> string) l files merged, fl_sep fl = true ->
+  (forall T, In T l -> file_name c fl aio fmap T = name T) ->
+  ~ NoDup (map fst files ++ map name (filter (keep c p (fl_specified fl)) l)) ->
+  NoDup (map fst files) ->
+  exists d fs m, gen_loop c p fl aio fmap l files merged = (Some d, fs, m).
+Proof.
+  intros c p fl aio fmap name l. induction l as [|T l IH]; simpl; intros files merged Hs Hnm Hnd Hf.
+  - exfalso. apply Hnd. rewrite app_nil_r. exact Hf.
+  - unfold keep at 1 in Hnd. destruct (make_data c p (fl_specified fl) T) eqn:E; simpl in *.
+    + rewrite Hs. rewrite (Hnm T (or_introl eq_refl)).
+      destruct (mem (name T) (map fst files)) eqn:Em; [do 3 eexists; reflexivity|].
+      apply IH; try assumption.
+      * intros T' HT'. apply Hnm. right. exact HT'.
+      * rewrite map_app. simpl. rewrite <- app_assoc. exact Hnd.
+      * rewrite map_app. simpl. apply mem_false in Em.
+        clear - Hf Em. induction (map fst files) as [|x xs IHx]; simpl.
+        -- constructor; [intros []|constructor].
+        -- inversion Hf; subst. constructor.
+           ++ intros C. apply in_app_or in C. destruct C as [C|[C|[]]]; [contradiction|]. subst. apply Em. left. reflexivity.
+           ++ apply IHx; [assumption|]. intros C. apply Em. right. exact C.
+    + apply IH; try assumption. intros T' HT'. apply Hnm. right. exact HT'.
+    + do 3 eexists. reflexivity.
 Qed.
 
 Lemma gen_loop_merge : forall c p fl aio fmap l files merged, fl_sep fl = false ->
@@ -785,36 +731,11 @@ Proof.
   intros c p fl aio fmap l. induction l as [|T l IH]; simpl; intros files merged [T0 [d0 [Hin Hf]]]; [contradiction|].
   destruct (make_data c p (fl_specified fl) T) eqn:E.
   - destruct Hin as [->|Hin]; [congruence|].
-    destruct (fl_sep fl); apply IH; exists T0, d0; tauto.
+    destruct (fl_sep fl); [|apply IH; exists T0, d0; tauto].
+    destruct (mem (file_name c fl aio fmap T) (map fst files)); [do 3 eexists; reflexivity|].
+    apply IH; exists T0, d0; tauto.
   - destruct Hin as [->|Hin]; [congruence|]. apply IH. exists T0, d0. tauto.
   - do 3 eexists. reflexivity.
-Qed.
-
-Lemma upsert_fresh : forall k v m, ~ In k (map fst m) -> upsert k v m = (m ++ [(k, v)])%list.
-Proof.
-  intros k v m. induction m as [|[k' v'] m IH]; simpl; intros H; [reflexivity|].
-  destruct (k' =? k) eqn:E.
-  - apply String.eqb_eq in E. exfalso. apply H. left. exact E.
-  - rewrite IH; [reflexivity|]. intros C. apply H. right. exact C.
-Qed.
-
-Lemma fold_upsert : forall (name : string -> string) l m, NoDup (map fst m ++ map name l) ->
-  fold_left (fun fs T => upsert (name T) [T] fs) l m = (m ++ map (fun T => (name T, [T])) l)%list.
-Proof.
-  intros name l. induction l as [|T l IH]; simpl; intros m Hn.
-  - rewrite app_nil_r. reflexivity.
-  - rewrite upsert_fresh.
-    + rewrite IH.
-      * rewrite <- app_assoc. reflexivity.
-      * rewrite map_app. simpl. rewrite <- app_assoc. exact Hn.
-    + intros C. apply (NoDup_app_disjoint _ _ _ (name T) Hn C). left. reflexivity.
-Qed.
-
-Lemma fold_left_ext_in : forall (A B : Type) (f g : A -> B -> A) l a,
-  (forall x b, In x l -> f b x = g b x) -> fold_left f l a = fold_left g l a.
-Proof.
-  intros A B f g l. induction l as [|x l IH]; simpl; intros a H; [reflexivity|].
-  rewrite H by (left; reflexivity). apply IH. intros y b Hy. apply H. right. exact Hy.
 Qed.
 
 Lemma filter_map_comm : forall (A B : Type) (P : B -> bool) (f : A -> B) l,
@@ -962,6 +883,7 @@ Proof.
   apply IH; try assumption. apply String.eqb_neq. exact Hf.
 Qed.
 
+
 (* ------------------------------------------------------------ main theorem *)
 
 Definition refines (o : oracle) (c : subcmd) (fl : cflags) (p : pkg) : Prop :=
@@ -971,8 +893,7 @@ Definition refines (o : oracle) (c : subcmd) (fl : cflags) (p : pkg) : Prop :=
   end.
 
 Lemma known_class_false : forall c fl p, known_class c fl p = false ->
-  k_enum_missing_silent c fl p = false /\ k_star_no_generate_line c fl p = false /\
-  k_star_sep_file c fl p = false /\ k_local_type_listed c fl p = false /\ k_lower_collision c fl p = false.
+  k_star_no_generate_line c fl p = false /\ k_star_sep_file c fl p = false.
 Proof.
   intros c fl p H. unfold known_class in H. rewrite !orb_false_iff in H. tauto.
 Qed.
@@ -991,10 +912,13 @@ Proof.
   rewrite (H a (or_introl eq_refl)). f_equal. apply IH. intros x Hx. apply H. right. exact Hx.
 Qed.
 
+Lemma nodupb_false : forall l, nodupb l = false -> ~ NoDup l.
+Proof. intros l H C. apply nodupb_NoDup in C. congruence. Qed.
+
 Lemma nameable_ident : forall c p T, wf p -> nameable c p T = true -> is_ident T = true.
 Proof.
   intros c p T W H. apply nameable_iff in H. destruct H as [t [Ht [He _]]]. subst T.
-  apply (wf_idents p W). apply in_walk_pkg. left. exact Ht.
+  apply (wf_idents p W). exact Ht.
 Qed.
 
 Lemma nameable_file : forall c p T, wf p -> nameable c p T = true ->
@@ -1007,32 +931,25 @@ Qed.
 
 (* some name of an explicit list cannot be generated for: the loop stops with a diagnostic *)
 Lemma specified_fatal : forall c p fl aio fm, wf p -> fl_specified fl = true ->
-  k_enum_missing_silent c fl p = false -> k_local_type_listed c fl p = false ->
   forallb (nameable c p) (fl_types fl) = false ->
   exists d fs m, gen_loop c p fl aio fm (fl_types fl) [] [] = (Some d, fs, m).
 Proof.
-  intros c p fl aio fm W Hsp Henum Hloc Hall.
+  intros c p fl aio fm W Hsp Hall.
   apply forallb_false_exists in Hall. destruct Hall as [T [HT Hn]].
-  unfold k_local_type_listed in Hloc. rewrite Hsp in Hloc. rewrite existsb_false_forall in Hloc.
-  destruct (make_data_not_nameable c p T W (Hloc T HT) Hn) as [d Hd].
-  - intros ->. unfold k_enum_missing_silent in Henum. rewrite Hsp in Henum. simpl in Henum.
-    rewrite existsb_false_forall in Henum. specialize (Henum T HT). simpl in Henum. rewrite Hn in Henum. simpl in Henum.
-    destruct (alias_named p T); [left; reflexivity|]. simpl in Henum. right. apply Nat.eqb_neq. exact Henum.
-  - apply gen_loop_fatal. exists T, d. rewrite Hsp. tauto.
+  destruct (make_data_not_nameable c p T W Hn) as [d Hd].
+  apply gen_loop_fatal. exists T, d. rewrite Hsp. tauto.
 Qed.
 
 Lemma refines_specified : forall o c fl p, perm_oracle o -> wf p ->
-  fl_specified fl = true -> fl_sep fl = true -> file_arg_ok fl p = true ->
-  k_enum_missing_silent c fl p = false -> k_local_type_listed c fl p = false -> k_lower_collision c fl p = false ->
-  refines o c fl p.
+  fl_specified fl = true -> fl_sep fl = true -> file_arg_ok fl p = true -> refines o c fl p.
 Proof.
-  intros o c fl p Ho W Hsp Hsep Hfa Henum Hloc Hcoll.
+  intros o c fl p Ho W Hsp Hsep Hfa.
+  set (name := fun T => per_type_name c (decl_file p T) T).
   destruct (forallb (nameable c p) (fl_types fl) &&
             ((fl_file fl =? "") || forallb (fun T => decl_file p T =? fl_file fl) (fl_types fl))) eqn:Eok.
   - (* every name is eligible (and lies in the -file) *)
-    assert (Hspec : spec c fl p = EFiles (map (fun T => (per_type_name c (decl_file p T) T, [T])) (fl_types fl))).
-    { unfold spec. rewrite Hfa, Hsp, Eok. reflexivity. }
-    apply andb_true_iff in Eok. destruct Eok as [Hall Hfile]. rewrite forallb_forall in Hall.
+    apply andb_true_iff in Eok. destruct Eok as [Hall Hfile].
+    assert (Hall' := Hall). rewrite forallb_forall in Hall.
     assert (Haio : all_in_one_file fl p = "").
     { unfold all_in_one_file. destruct (mem "*" (fl_types fl)) eqn:Em; [|rewrite andb_false_r; reflexivity].
       exfalso. apply mem_In in Em. apply (is_ident_not_star "*"); [|reflexivity].
@@ -1048,22 +965,35 @@ Proof.
         simpl in Hfile. rewrite Hfile. exists []. split; [reflexivity|]. intros T HT. simpl.
         rewrite forallb_forall in Hfile. specialize (Hfile T HT). apply String.eqb_eq in Hfile. symmetry. exact Hfile. }
     destruct Hconf as [fm [Hc Hsrc]].
-    unfold refines. rewrite Hspec. unfold k_lower_collision, expected_names in Hcoll. rewrite Hspec in Hcoll.
-    rewrite map_map in Hcoll. simpl in Hcoll. apply negb_false_iff in Hcoll. apply nodupb_NoDup in Hcoll.
-    split.
-    + unfold run. rewrite (check_file_arg_ok fl p Hfa). unfold run_loaded. rewrite Hsp, Hc, Haio.
-      rewrite gen_loop_sep; [|exact Hsep|].
-      * rewrite Hsp. rewrite filter_all.
-        -- rewrite (fold_left_ext_in _ _ _ (fun fs T => upsert (per_type_name c (decl_file p T) T) [T] fs)).
-           ++ rewrite (fold_upsert (fun T => per_type_name c (decl_file p T) T)); [reflexivity | simpl; exact Hcoll].
-           ++ intros T fs HT. rewrite file_name_type.
-              ** rewrite (Hsrc T HT). reflexivity.
-              ** apply is_ident_nonempty. apply (nameable_ident c p T W). apply Hall. exact HT.
-        -- intros T HT. unfold keep. rewrite (make_data_nameable c p true T W (Hall T HT)). reflexivity.
-      * intros T d HT. rewrite (make_data_nameable c p _ T W (Hall T HT)). discriminate.
-    + rewrite map_map. simpl. apply forallb_forall. intros n Hn. apply in_map_iff in Hn. destruct Hn as [T [He HT]].
-      subst n. destruct (nameable_file c p T W (Hall T HT)) as [f [Hf Hd]]. rewrite Hd.
-      apply anchored_per_type. exact Hf.
+    assert (Hnm : forall T, In T (fl_types fl) -> file_name c fl "" fm T = name T).
+    { intros T HT. rewrite file_name_type.
+      - rewrite (Hsrc T HT). reflexivity.
+      - apply is_ident_nonempty. apply (nameable_ident c p T W). apply Hall. exact HT. }
+    assert (Hk : filter (keep c p (fl_specified fl)) (fl_types fl) = fl_types fl).
+    { apply filter_all. intros T HT. unfold keep. rewrite (make_data_nameable c p _ T W (Hall T HT)). reflexivity. }
+    assert (Hnf : forall T d, In T (fl_types fl) -> make_data c p (fl_specified fl) T <> MFatal d).
+    { intros T d HT. rewrite (make_data_nameable c p _ T W (Hall T HT)). discriminate. }
+    destruct (nodupb (map name (fl_types fl))) eqn:End.
+    + (* distinct output names *)
+      assert (Hspec : spec c fl p = EFiles (map (fun T => (name T, [T])) (fl_types fl))).
+      { unfold spec. rewrite Hfa, Hsp, Hall', Hfile. fold name. rewrite End. reflexivity. }
+      unfold refines. rewrite Hspec. apply nodupb_NoDup in End. split.
+      * unfold run. rewrite (check_file_arg_ok fl p Hfa). unfold run_loaded. rewrite Hsp, Hc, Haio.
+        rewrite (gen_loop_sep c p fl "" fm name); try assumption.
+        -- rewrite Hk. reflexivity.
+        -- rewrite Hk. simpl. exact End.
+      * rewrite map_map. simpl. apply forallb_forall. intros n Hn. apply in_map_iff in Hn. destruct Hn as [T [He HT]].
+        subst n. unfold name. destruct (nameable_file c p T W (Hall T HT)) as [f [Hf Hd]]. rewrite Hd.
+        apply anchored_per_type. exact Hf.
+    + (* two of the named types map to one output file: a diagnostic, nothing written *)
+      assert (Hspec : spec c fl p = EFail).
+      { unfold spec. rewrite Hfa, Hsp, Hall', Hfile. fold name. rewrite End. reflexivity. }
+      unfold refines. rewrite Hspec.
+      unfold run. rewrite (check_file_arg_ok fl p Hfa). unfold run_loaded. rewrite Hsp, Hc, Haio.
+      destruct (gen_loop_clash c p fl "" fm name (fl_types fl) [] [] Hsep Hnm) as [d [fs [m Hg]]].
+      * rewrite Hk. simpl. apply nodupb_false. exact End.
+      * constructor.
+      * rewrite Hg. exists d. reflexivity.
   - (* a name that is missing or of the wrong kind, or outside the -file *)
     assert (Hspec : spec c fl p = EFail).
     { unfold spec. rewrite Hfa, Hsp, Eok. reflexivity. }
@@ -1073,12 +1003,12 @@ Proof.
       destruct (confirm_nofile o p fl (fl_types fl) [] Ho W Ef) as [fm [H1 _]].
       { intros k v []. }
       rewrite H1.
-      destruct (specified_fatal c p fl (all_in_one_file fl p) fm W Hsp Henum Hloc Eok) as [d [fs [m Hg]]].
+      destruct (specified_fatal c p fl (all_in_one_file fl p) fm W Hsp Eok) as [d [fs [m Hg]]].
       rewrite Hg. exists d. reflexivity.
     + assert (Ef' := Ef). apply String.eqb_neq in Ef'. rewrite confirm_file by assumption. simpl in Eok.
       destruct (forallb (fun T => decl_file p T =? fl_file fl) (fl_types fl)).
       * rewrite andb_true_r in Eok.
-        destruct (specified_fatal c p fl (all_in_one_file fl p) [] W Hsp Henum Hloc Eok) as [d [fs [m Hg]]].
+        destruct (specified_fatal c p fl (all_in_one_file fl p) [] W Hsp Eok) as [d [fs [m Hg]]].
         rewrite Hg. exists d. reflexivity.
       * exists DgNotInFile. reflexivity.
 Qed.
@@ -1086,11 +1016,10 @@ Qed.
 Lemma refines_listed : forall o c fl p, perm_oracle o -> wf p ->
   fl_specified fl = false -> file_arg_ok fl p = true ->
   k_star_no_generate_line c fl p = false -> k_star_sep_file c fl p = false ->
-  k_local_type_listed c fl p = false -> k_lower_collision c fl p = false ->
   refines o c fl p.
 Proof.
-  intros o c fl p Ho W Hsp Hfa Hnogen Hstarsep Hloc Hcoll.
-  unfold k_local_type_listed in Hloc. rewrite Hsp in Hloc.
+  intros o c fl p Ho W Hsp Hfa Hnogen Hstarsep.
+  set (name := fun T => per_type_name c (decl_file p T) T).
   set (pool := if fl_file fl =? "" then pkg_specs p else file_named p (fl_file fl)).
   assert (Hpool : forall t, In t pool -> In t (pkg_specs p)).
   { intros t Ht. unfold pool in Ht. destruct (fl_file fl =? ""); [exact Ht|].
@@ -1101,10 +1030,8 @@ Proof.
     - apply String.eqb_neq in Ef. apply list_types_file; assumption. }
   remember (map ts_name (filter (listable c p) pool)) as sel eqn:Hsel.
   assert (Hselspec : spec_selection c fl p = sel) by (subst sel; reflexivity).
-  (* every selected name comes from a package-level declaration of the pool *)
   assert (Hselin : forall T, In T sel -> exists t, In t pool /\ ts_name t = T).
   { intros T HT. subst sel. apply in_map_iff in HT. destruct HT as [t [He Ht]]. apply filter_In in Ht. exists t. tauto. }
-  (* the source file the code uses for T is the file declaring T *)
   assert (Hsrc : fl_sep fl = true -> forall T, In T sel ->
             (if negb (fl_file fl =? "") then fl_file fl
              else if negb (all_in_one_file fl p =? "") then all_in_one_file fl p else assoc T []) = decl_file p T).
@@ -1122,33 +1049,64 @@ Proof.
             match gen_loop c p fl (all_in_one_file fl p) [] (map ts_name (filter (test_node_list c) pool)) [] [] with
             | (Some d, _, _) => Failed d
             | (None, files, merged) =>
-                let files' := match merged with [] => files | _ => upsert (file_name c fl (all_in_one_file fl p) [] "") merged files end in
+                let files' := match merged with
+                              | [] => files
+                              | _ => (files ++ [(file_name c fl (all_in_one_file fl p) [] "", merged)])%list
+                              end in
                 Done files' (o _ (map fst files'))
             end).
   { unfold run. rewrite (check_file_arg_ok fl p Hfa). unfold run_loaded. rewrite Hsp, Hlist. reflexivity. }
   assert (Hnofatal : forall T d, In T (map ts_name (filter (test_node_list c) pool)) ->
             make_data c p (fl_specified fl) T <> MFatal d).
   { intros T d HT. rewrite Hsp. eapply listed_no_fatal; eassumption. }
+  assert (Hkeep : filter (keep c p (fl_specified fl)) (map ts_name (filter (test_node_list c) pool)) = sel).
+  { rewrite Hsp, filter_keep_listable by assumption. symmetry. exact Hsel. }
   unfold refines. destruct (fl_sep fl) eqn:Esep.
   - (* one file per selected type *)
-    assert (Hspec : spec c fl p = EFiles (map (fun T => (per_type_name c (decl_file p T) T, [T])) sel)).
-    { unfold spec. rewrite Hfa, Hsp, Esep. subst sel. reflexivity. }
-    rewrite Hspec. unfold k_lower_collision, expected_names in Hcoll. rewrite Hspec in Hcoll.
-    rewrite map_map in Hcoll. simpl in Hcoll. apply negb_false_iff in Hcoll. apply nodupb_NoDup in Hcoll.
-    split.
-    + rewrite Hrun. rewrite gen_loop_sep by assumption. rewrite Hsp, filter_keep_listable by assumption. rewrite <- Hsel.
-      rewrite (fold_left_ext_in _ _ _ (fun fs T => upsert (per_type_name c (decl_file p T) T) [T] fs)).
-      * rewrite (fold_upsert (fun T => per_type_name c (decl_file p T) T)); [reflexivity | simpl; exact Hcoll].
-      * intros T fs HT. rewrite file_name_type.
-        -- rewrite (Hsrc eq_refl T HT). reflexivity.
-        -- destruct (Hselin T HT) as [t [Ht He]]. subst T. apply is_ident_nonempty. apply (wf_idents p W).
-           apply in_walk_pkg. left. apply Hpool. exact Ht.
-    + rewrite map_map. simpl. apply forallb_forall. intros n Hn. apply in_map_iff in Hn. destruct Hn as [T [He HT]].
-      subst n. destruct (Hselin T HT) as [t [Ht Hn]]. subst T.
-      destruct (in_pkg_specs_file p t (Hpool t Ht)) as [f [Hf Htf]]. rewrite (decl_file_spec p f t W Hf Htf).
-      apply anchored_per_type. exact Hf.
+    assert (Hnm : forall T, In T (map ts_name (filter (test_node_list c) pool)) ->
+              keep c p (fl_specified fl) T = true -> file_name c fl (all_in_one_file fl p) [] T = name T).
+    { intros T HT Hk. assert (HTs : In T sel). { rewrite <- Hkeep. apply filter_In. tauto. }
+      rewrite file_name_type.
+      - rewrite (Hsrc eq_refl T HTs). reflexivity.
+      - destruct (Hselin T HTs) as [t [Ht He]]. subst T. apply is_ident_nonempty. apply (wf_idents p W).
+        apply Hpool. exact Ht. }
+    (* the loop only names kept types: restrict it to them *)
+    assert (Hloop : forall l files merged,
+              (forall T, In T l -> In T (map ts_name (filter (test_node_list c) pool))) ->
+              gen_loop c p fl (all_in_one_file fl p) [] l files merged =
+              gen_loop c p fl (all_in_one_file fl p) [] (filter (keep c p (fl_specified fl)) l) files merged).
+    { induction l as [|T l IH]; intros files merged Hin; [reflexivity|]. simpl.
+      assert (Hin' : forall T', In T' l -> In T' (map ts_name (filter (test_node_list c) pool))) by (intros T' H'; apply Hin; right; exact H').
+      unfold keep at 1. destruct (make_data c p (fl_specified fl) T) eqn:E; simpl.
+      - rewrite E. rewrite Esep. destruct (mem _ _); [reflexivity|]. apply IH. exact Hin'.
+      - apply IH. exact Hin'.
+      - exfalso. apply (Hnofatal T d); [apply Hin; left; reflexivity | exact E]. }
+    rewrite Hrun, Hloop by (intros T HT; exact HT). rewrite Hkeep.
+    assert (Hnm' : forall T, In T sel -> file_name c fl (all_in_one_file fl p) [] T = name T).
+    { intros T HT. rewrite <- Hkeep in HT. apply filter_In in HT. destruct HT as [H1 H2]. apply Hnm; assumption. }
+    assert (Hnf' : forall T d, In T sel -> make_data c p (fl_specified fl) T <> MFatal d).
+    { intros T d HT. rewrite <- Hkeep in HT. apply filter_In in HT. destruct HT as [H1 _]. apply Hnofatal. exact H1. }
+    assert (Hk' : filter (keep c p (fl_specified fl)) sel = sel).
+    { apply filter_all. intros T HT. rewrite <- Hkeep in HT. apply filter_In in HT. tauto. }
+    destruct (nodupb (map name sel)) eqn:End.
+    + assert (Hspec : spec c fl p = EFiles (map (fun T => (name T, [T])) sel)).
+      { unfold spec. rewrite Hfa, Hsp, Esep. fold pool. rewrite <- Hsel. fold name. rewrite End. reflexivity. }
+      rewrite Hspec. apply nodupb_NoDup in End. split.
+      * rewrite (gen_loop_sep c p fl _ [] name sel [] [] Esep Hnf' Hnm'); [rewrite Hk'; reflexivity|].
+        rewrite Hk'. simpl. exact End.
+      * rewrite map_map. simpl. apply forallb_forall. intros n Hn. apply in_map_iff in Hn. destruct Hn as [T [He HT]].
+        subst n. destruct (Hselin T HT) as [t [Ht Hn]]. subst T. unfold name.
+        destruct (in_pkg_specs_file p t (Hpool t Ht)) as [f [Hf Htf]]. rewrite (decl_file_spec p f t W Hf Htf).
+        apply anchored_per_type. exact Hf.
+    + assert (Hspec : spec c fl p = EFail).
+      { unfold spec. rewrite Hfa, Hsp, Esep. fold pool. rewrite <- Hsel. fold name. rewrite End. reflexivity. }
+      rewrite Hspec.
+      destruct (gen_loop_clash c p fl (all_in_one_file fl p) [] name sel [] [] Esep Hnm') as [d [fs [m Hg]]].
+      * rewrite Hk'. simpl. apply nodupb_false. exact End.
+      * constructor.
+      * rewrite Hg. exists d. reflexivity.
   - (* all selected types in one file *)
-    rewrite Hrun. rewrite gen_loop_merge by assumption. rewrite Hsp, filter_keep_listable by assumption. rewrite <- Hsel.
+    rewrite Hrun. rewrite gen_loop_merge by assumption. rewrite Hkeep.
     simpl. destruct sel as [|T0 sel'] eqn:Es.
     + assert (Hspec : spec c fl p = EFiles []).
       { unfold spec. rewrite Hfa, Hsp, Esep. fold pool. rewrite <- Hsel. reflexivity. }
@@ -1168,287 +1126,11 @@ Theorem run_refines_spec : forall o c fl p,
   perm_oracle o -> wf_pkgb p = true -> flags_okb fl = true -> known_class c fl p = false -> refines o c fl p.
 Proof.
   intros o c fl p Ho Hwf Hfl Hk. apply wf_pkgb_wf in Hwf.
-  apply known_class_false in Hk. destruct Hk as [H1 [H2 [H3 [H4 H5]]]].
+  apply known_class_false in Hk. destruct Hk as [H2 H3].
   destruct (file_arg_ok fl p) eqn:Hfa.
   - destruct (fl_specified fl) eqn:Hsp.
     + unfold flags_okb in Hfl. rewrite Hsp in Hfl. simpl in Hfl. apply refines_specified; assumption.
     + apply refines_listed; assumption.
   - unfold refines, spec. rewrite Hfa. simpl. destruct (check_file_arg_bad fl p Hfa) as [d Hd].
     exists d. unfold run. rewrite Hd. reflexivity.
-Qed.
-
-(* ----------------------------------------------------------- consequences *)
-
-Lemma refines_meets : forall o c fl p, perm_oracle o -> refines o c fl p ->
-  meets c p (run o c fl p) (spec c fl p) = true.
-Proof.
-  intros o c fl p Ho H. unfold refines in H. destruct (spec c fl p) as [|fs].
-  - destruct H as [d Hd]. rewrite Hd. reflexivity.
-  - destruct H as [Hr Ha]. rewrite Hr. simpl. rewrite srcmap_same_refl, Ha.
-    rewrite (perm_eqb_complete _ _ (Ho _ (map fst fs))). reflexivity.
-Qed.
-
-Theorem run_meets_spec : forall o c fl p,
-  perm_oracle o -> wf_pkgb p = true -> flags_okb fl = true -> known_class c fl p = false ->
-  meets c p (run o c fl p) (spec c fl p) = true.
-Proof. intros o c fl p Ho Hwf Hfl Hk. apply refines_meets; [exact Ho|]. apply run_refines_spec; assumption. Qed.
-
-(* the success message lists exactly the written files -- for every input *)
-Theorem message_lists_every_file : forall o c fl p files listed,
-  perm_oracle o -> run o c fl p = Done files listed -> Permutation listed (map fst files).
-Proof.
-  intros o c fl p files listed Ho H. unfold run in H. destruct (check_file_arg fl p); [discriminate|].
-  unfold run_loaded in H.
-  destruct (if fl_specified fl
-            then match confirm_specified o p fl (fl_types fl) [] with
-                 | Some fmap => Some (fl_types fl, fmap) | None => None end
-            else Some (list_types c fl p, [])) as [[types fmap]|]; [|discriminate].
-  destruct (gen_loop c p fl (all_in_one_file fl p) fmap types [] []) as [[[d|] fs] merged]; [discriminate|].
-  inversion H; subst. apply Ho.
-Qed.
-
-(* a failing run writes nothing: by construction a [Failed] outcome carries no
-   file; a run that writes files is [Done] *)
-
-(* naming a missing or wrong-kind type: a diagnostic and no file at all *)
-Theorem bad_name_fails : forall o c fl p T,
-  perm_oracle o -> wf_pkgb p = true -> fl_specified fl = true ->
-  In T (fl_types fl) -> nameable c p T = false -> is_local p T = false ->
-  (c = CEnum -> alias_named p T = true \/ consts_of p T <> 0) ->
-  exists d, run o c fl p = Failed d.
-Proof.
-  intros o c fl p T Ho Hwf Hsp HT Hn Hl Hen. apply wf_pkgb_wf in Hwf.
-  unfold run. destruct (check_file_arg fl p) as [d|]; [exists d; reflexivity|].
-  unfold run_loaded. rewrite Hsp. destruct (confirm_specified o p fl (fl_types fl) []) as [fm|]; [|eexists; reflexivity].
-  destruct (make_data_not_nameable c p T Hwf Hl Hn Hen) as [d Hd].
-  destruct (gen_loop_fatal c p fl (all_in_one_file fl p) fm (fl_types fl) [] []) as [d' [fs [m Hg]]].
-  - exists T, d. rewrite Hsp. tauto.
-  - rewrite Hg. exists d'. reflexivity.
-Qed.
-
-(* the code's decision to generate for an explicitly named type is the declarative [nameable] *)
-Theorem generated_iff_nameable : forall c p T, wf_pkgb p = true -> is_local p T = false ->
-  (make_data c p true T = MGen <-> nameable c p T = true).
-Proof.
-  intros c p T Hwf Hl. apply wf_pkgb_wf in Hwf. split.
-  - intros Hg. destruct (nameable c p T) eqn:Hn; [reflexivity|]. exfalso.
-    destruct c; try (destruct (make_data_not_nameable _ p T Hwf Hl Hn) as [d Hd]; [discriminate | congruence]).
-    (* enum: an alias or non-integer constants are fatal, no constants at all is a silent skip *)
-    destruct (alias_named p T) eqn:Ea.
-    + destruct (make_data_not_nameable CEnum p T Hwf Hl Hn) as [d Hd]; [intros _; left; exact Ea | congruence].
-    + destruct (Nat.eqb (consts_of p T) 0) eqn:Ec.
-      * apply Nat.eqb_eq in Ec. simpl in Hg. rewrite enum_walk_ok in Hg.
-        -- rewrite <- consts_of_all, Ec in Hg. discriminate.
-        -- rewrite <- alias_named_walk. exact Ea.
-        -- right. rewrite <- consts_of_all. exact Ec.
-      * apply Nat.eqb_neq in Ec.
-        destruct (make_data_not_nameable CEnum p T Hwf Hl Hn) as [d Hd]; [intros _; right; exact Ec | congruence].
-  - intros Hn. apply make_data_nameable; assumption.
-Qed.
-
-(* the code's two-stage filter of -file / -type=* (ListTypes, then MakeData
-   skipping) is the declarative [listable] on package-level declarations *)
-Theorem listed_iff_listable : forall c p t, wf_pkgb p = true -> In t (pkg_specs p) ->
-  (test_node_list c t && keep c p false (ts_name t)) = listable c p t.
-Proof.
-  intros c p t Hwf Ht. apply wf_pkgb_wf in Hwf. destruct (test_node_list c t) eqn:Et; simpl.
-  - unfold keep. rewrite (make_data_listed c p t Hwf Ht Et). destruct (listable c p t); reflexivity.
-  - destruct (listable c p t) eqn:El; [|reflexivity]. apply listable_test in El. congruence.
-Qed.
-
-(* the classes are disjoint from an explicit list of eligible, distinctly named types *)
-Lemma type_list_outside_classes : forall c fl p, wf p ->
-  fl_specified fl = true -> (forall T, In T (fl_types fl) -> nameable c p T = true) ->
-  k_enum_missing_silent c fl p = false /\ k_local_type_listed c fl p = false.
-Proof.
-  intros c fl p W Hsp Hall. split.
-  - unfold k_enum_missing_silent. rewrite Hsp.
-    assert (H : existsb (fun T => negb (nameable c p T) && negb (alias_named p T) && Nat.eqb (consts_of p T) 0) (fl_types fl) = false).
-    { apply existsb_false_forall. intros T HT. rewrite (Hall T HT). reflexivity. }
-    rewrite H. rewrite andb_false_r. reflexivity.
-  - unfold k_local_type_listed. rewrite Hsp. apply existsb_false_forall. intros T HT.
-    specialize (Hall T HT). apply nameable_iff in Hall. destruct Hall as [t [Ht [He _]]]. subst T.
-    apply top_not_local; assumption.
-Qed.
-
-(* -type=A,B: exactly the named types, one file each, named after the declaring file *)
-Theorem type_list_exact : forall o c fl p,
-  perm_oracle o -> wf_pkgb p = true -> fl_specified fl = true -> fl_sep fl = true -> fl_file fl = "" ->
-  (forall T, In T (fl_types fl) -> nameable c p T = true) ->
-  NoDup (map (fun T => per_type_name c (decl_file p T) T) (fl_types fl)) ->
-  run o c fl p = Done (map (fun T => (per_type_name c (decl_file p T) T, [T])) (fl_types fl))
-                      (o _ (map (fun T => per_type_name c (decl_file p T) T) (fl_types fl))).
-Proof.
-  intros o c fl p Ho Hwf Hsp Hsep Hf Hall Hnd. apply wf_pkgb_wf in Hwf.
-  assert (Hfa : file_arg_ok fl p = true) by (unfold file_arg_ok; rewrite Hf; reflexivity).
-  assert (Hspec : spec c fl p = EFiles (map (fun T => (per_type_name c (decl_file p T) T, [T])) (fl_types fl))).
-  { unfold spec. rewrite Hfa, Hsp, Hf. simpl. rewrite andb_true_r.
-    assert (H : forallb (nameable c p) (fl_types fl) = true) by (apply forallb_forall; exact Hall).
-    rewrite H. reflexivity. }
-  destruct (type_list_outside_classes c fl p Hwf Hsp Hall) as [H1 H4].
-  assert (H5 : k_lower_collision c fl p = false).
-  { unfold k_lower_collision, expected_names. rewrite Hspec, map_map. simpl. apply negb_false_iff. apply nodupb_NoDup. exact Hnd. }
-  pose proof (refines_specified o c fl p Ho Hwf Hsp Hsep Hfa H1 H4 H5) as R. unfold refines in R. rewrite Hspec in R.
-  destruct R as [R _]. rewrite R, map_map. reflexivity.
-Qed.
-
-(* -file=f.go: exactly the eligible declarations of f.go, in declaration order, in f.shoot<cmd>.go *)
-Theorem file_mode_exact : forall o c fl p f,
-  perm_oracle o -> wf_pkgb p = true -> fl_specified fl = false -> fl_sep fl = false ->
-  In f (p_files p) -> fl_file fl = f_name f -> ends_with ".go" (f_name f) = true ->
-  existsb (test_node_list c) (local_specs p) = false ->
-  let sel := map ts_name (filter (listable c p) (top_specs f)) in
-  run o c fl p = match sel with
-                 | [] => Done [] (o _ [])
-                 | _ => Done [(trim_go (f_name f) ++ "." ++ shootcmd c ++ ".go", sel)]
-                             (o _ [trim_go (f_name f) ++ "." ++ shootcmd c ++ ".go"])
-                 end.
-Proof.
-  intros o c fl p f Ho Hwf Hsp Hsep Hf Hfile Hgo Hloc sel. apply wf_pkgb_wf in Hwf.
-  assert (Hne : f_name f <> "").
-  { intros C. pose proof (wf_visible p Hwf f Hf) as V. rewrite C in V. discriminate. }
-  assert (Hfa : file_arg_ok fl p = true).
-  { unfold file_arg_ok. rewrite Hfile, Hgo. apply String.eqb_neq in Hne. rewrite Hne. simpl.
-    apply mem_In. apply in_map. exact Hf. }
-  assert (Hfn : file_named p (fl_file fl) = top_specs f).
-  { unfold file_named. rewrite Hfile. destruct (find (fun f0 => f_name f0 =? f_name f) (p_files p)) as [f'|] eqn:E.
-    - apply find_some in E. destruct E as [Hf' He]. apply String.eqb_eq in He.
-      rewrite (NoDup_map_inj _ _ f_name _ f' f (wf_files p Hwf) Hf' Hf He). reflexivity.
-    - pose proof (find_none _ _ E f Hf) as C. simpl in C. rewrite String.eqb_refl in C. discriminate. }
-  assert (Hnes : (fl_file fl =? "") = false) by (rewrite Hfile; apply String.eqb_neq; exact Hne).
-  assert (Hspec : spec c fl p = match sel with [] => EFiles [] | _ => EFiles [(all_in_one_name c (fl_file fl), sel)] end).
-  { unfold spec. rewrite Hfa, Hsp, Hsep, Hnes. simpl. rewrite Hfn. fold sel. destruct sel; reflexivity. }
-  assert (R : refines o c fl p).
-  { apply refines_listed; try assumption.
-    - unfold k_star_no_generate_line, star_mode. rewrite Hsp, Hnes. reflexivity.
-    - unfold k_star_sep_file, star_mode. rewrite Hsp, Hnes. reflexivity.
-    - unfold k_local_type_listed. rewrite Hsp. exact Hloc.
-    - unfold k_lower_collision, expected_names. rewrite Hspec. destruct sel; reflexivity. }
-  unfold refines in R. rewrite Hspec in R. destruct sel as [|T0 sel'].
-  - destruct R as [R _]. exact R.
-  - destruct R as [R _]. rewrite R. unfold all_in_one_name. rewrite Hfile. reflexivity.
-Qed.
-
-(* -type=*: all eligible declarations of the package, in file and declaration
-   order, in <file of the //go:generate line>.shoot<cmd>.go *)
-Theorem star_mode_exact : forall o c fl p,
-  perm_oracle o -> wf_pkgb p = true -> fl_specified fl = false -> fl_sep fl = false -> fl_file fl = "" ->
-  all_in_one_file fl p <> "" ->
-  existsb (test_node_list c) (local_specs p) = false ->
-  let sel := map ts_name (filter (listable c p) (pkg_specs p)) in
-  run o c fl p = match sel with
-                 | [] => Done [] (o _ [])
-                 | _ => Done [(trim_go (all_in_one_file fl p) ++ "." ++ shootcmd c ++ ".go", sel)]
-                             (o _ [trim_go (all_in_one_file fl p) ++ "." ++ shootcmd c ++ ".go"])
-                 end.
-Proof.
-  intros o c fl p Ho Hwf Hsp Hsep Hf Haio Hloc sel. apply wf_pkgb_wf in Hwf.
-  assert (Hfa : file_arg_ok fl p = true) by (unfold file_arg_ok; rewrite Hf; reflexivity).
-  assert (Hspec : spec c fl p = match sel with [] => EFiles [] | _ => EFiles [(all_in_one_name c (all_in_one_file fl p), sel)] end).
-  { unfold spec. rewrite Hfa, Hsp, Hsep, Hf. simpl. fold sel. destruct sel; reflexivity. }
-  assert (R : refines o c fl p).
-  { apply refines_listed; try assumption.
-    - unfold k_star_no_generate_line. apply String.eqb_neq in Haio. rewrite Haio. rewrite andb_false_r. reflexivity.
-    - unfold k_star_sep_file. rewrite Hsep. rewrite andb_false_r. reflexivity.
-    - unfold k_local_type_listed. rewrite Hsp. exact Hloc.
-    - unfold k_lower_collision, expected_names. rewrite Hspec. destruct sel; reflexivity. }
-  unfold refines in R. rewrite Hspec in R. destruct sel as [|T0 sel'].
-  - destruct R as [R _]. exact R.
-  - destruct R as [R _]. rewrite R. reflexivity.
-Qed.
-
-(* getGoFile is independent of the iteration order of TypesInfo.Defs: the file
-   holding the package-level declaration (type parameters and function-local
-   types of the same name do not count) *)
-Theorem get_go_file_decl : forall o p T, perm_oracle o -> wf_pkgb p = true -> get_go_file o p T = decl_file p T.
-Proof. intros o p T Ho Hwf. apply get_go_file_perm; [exact Ho | apply wf_pkgb_wf; exact Hwf]. Qed.
-
-Theorem decl_file_declares : forall p f t, wf_pkgb p = true -> In f (p_files p) -> In t (top_specs f) ->
-  decl_file p (ts_name t) = f_name f.
-Proof. intros p f t Hwf. apply decl_file_spec. apply wf_pkgb_wf. exact Hwf. Qed.
-
-(* ------------------------- the class of K_star_no_generate_line, in general *)
-
-(* -file / -type=* without -sep, computed without any assumption on //go:generate lines *)
-Lemma run_listed_merged : forall o c fl p, perm_oracle o -> wf p ->
-  fl_specified fl = false -> fl_sep fl = false -> file_arg_ok fl p = true ->
-  existsb (test_node_list c) (local_specs p) = false ->
-  run o c fl p =
-  match spec_selection c fl p with
-  | [] => Done [] (o _ [])
-  | sel => let n := all_in_one_name c (if fl_file fl =? "" then all_in_one_file fl p else fl_file fl) in
-           Done [(n, sel)] (o _ [n])
-  end.
-Proof.
-  intros o c fl p Ho W Hsp Hsep Hfa Hloc.
-  set (pool := if fl_file fl =? "" then pkg_specs p else file_named p (fl_file fl)).
-  assert (Hpool : forall t, In t pool -> In t (pkg_specs p)).
-  { intros t Ht. unfold pool in Ht. destruct (fl_file fl =? ""); [exact Ht|].
-    destruct (file_named_in p _ t Ht) as [f [Hf [_ Htf]]]. eapply top_specs_in_pkg; eassumption. }
-  assert (Hlist : list_types c fl p = map ts_name (filter (test_node_list c) pool)).
-  { unfold pool. destruct (fl_file fl =? "") eqn:Ef.
-    - apply String.eqb_eq in Ef. apply list_types_all; assumption.
-    - apply String.eqb_neq in Ef. apply list_types_file; assumption. }
-  assert (Hnofatal : forall T d, In T (map ts_name (filter (test_node_list c) pool)) ->
-            make_data c p (fl_specified fl) T <> MFatal d).
-  { intros T d HT. rewrite Hsp. eapply listed_no_fatal; eassumption. }
-  unfold run. rewrite (check_file_arg_ok fl p Hfa). unfold run_loaded. rewrite Hsp, Hlist.
-  rewrite gen_loop_merge by assumption. rewrite Hsp, filter_keep_listable by assumption.
-  unfold spec_selection. fold pool. simpl.
-  destruct (map ts_name (filter (listable c p) pool)) as [|T0 sel']; [reflexivity|].
-  rewrite file_name_all. reflexivity.
-Qed.
-
-Lemma trim_go_head : forall n, visible_file n = true -> exists ch r, trim_go n = String ch r /\ ch <> "."%char.
-Proof.
-  intros [|ch n'] H; [discriminate|]. unfold visible_file in H. rewrite !andb_true_iff in H. destruct H as [[_ H] _].
-  apply negb_true_iff in H. destruct (Ascii.eqb ch ".") eqn:E.
-  - apply Ascii.eqb_eq in E. subst ch.
-    assert (C : has_prefix "." (String "." n') = true) by (unfold has_prefix; simpl; apply prefix_empty).
-    rewrite C in H. discriminate H.
-  - exists ch, (trim_go n'). split.
-    + simpl. rewrite E. reflexivity.
-    + intros C. subst ch. discriminate E.
-Qed.
-
-Lemma dot_name_unanchored : forall c p, wf p -> anchored c p (all_in_one_name c "") = false.
-Proof.
-  intros c p W. unfold anchored. apply existsb_false_forall. intros f Hf.
-  destruct (trim_go_head (f_name f) (wf_visible p W f Hf)) as [ch [r [Ht Hne]]]. rewrite Ht.
-  unfold has_prefix, all_in_one_name. simpl. destruct (ascii_dec ch "."); [contradiction | reflexivity].
-Qed.
-
-(* `-type=*` in a package where no //go:generate line ends with the command
-   line: whenever something is eligible, ALL of it goes to the dot-file
-   .shoot<cmd>.go, which is not named after any source file (and which the go
-   tool ignores) -- for every well-formed package, not only the witness *)
-Theorem star_without_generate_line : forall o c fl p, perm_oracle o -> wf_pkgb p = true ->
-  fl_specified fl = false -> fl_sep fl = false -> fl_file fl = "" -> all_in_one_file fl p = "" ->
-  existsb (test_node_list c) (local_specs p) = false -> spec_selection c fl p <> [] ->
-  run o c fl p = Done [("." ++ shootcmd c ++ ".go", spec_selection c fl p)] (o _ ["." ++ shootcmd c ++ ".go"]) /\
-  anchored c p ("." ++ shootcmd c ++ ".go") = false /\
-  meets c p (run o c fl p) (spec c fl p) = false.
-Proof.
-  intros o c fl p Ho Hwf Hsp Hsep Hf Haio Hloc Hne. apply wf_pkgb_wf in Hwf.
-  assert (Hfa : file_arg_ok fl p = true) by (unfold file_arg_ok; rewrite Hf; reflexivity).
-  pose proof (run_listed_merged o c fl p Ho Hwf Hsp Hsep Hfa Hloc) as R.
-  rewrite Hf, Haio in R. simpl in R.
-  pose proof (dot_name_unanchored c p Hwf) as U. unfold all_in_one_name in U. simpl in U.
-  destruct (spec_selection c fl p) as [|T0 sel'] eqn:Es; [contradiction|].
-  unfold all_in_one_name in R. simpl in R. split; [exact R|]. split; [exact U|].
-  rewrite R. destruct (spec c fl p); [reflexivity|]. simpl. rewrite U. rewrite !andb_false_r. reflexivity.
-Qed.
-
-(* the class of K_enum_missing_silent, in general: an explicitly named type that
-   `shoot enum` cannot generate for, that is no alias and has no typed
-   constants (missing, a struct, an integer type without constants, ...) is
-   skipped by the loop -- no diagnostic, no file for it, the run goes on *)
-Theorem enum_unknown_name_skipped : forall p b T,
-  nameable CEnum p T = false -> alias_named p T = false -> consts_of p T = 0 ->
-  make_data CEnum p b T = MSkip.
-Proof.
-  intros p b T _ Ha Hc. simpl. rewrite enum_walk_ok.
-  - rewrite <- consts_of_all, Hc. reflexivity.
-  - rewrite <- alias_named_walk. exact Ha.
-  - right. rewrite <- consts_of_all. exact Hc.
 Qed.
